@@ -11,6 +11,7 @@ import (
 	"path/filepath"
 	"sort"
 	"strings"
+	"sync"
 	"syscall"
 	"testing"
 
@@ -194,7 +195,7 @@ func c02GenCase(rt *rapid.T) c02Case {
 			} else {
 				tgt = rapid.SampledFrom([]string{"nowhere", "../nowhere", "{R}/nowhere", "..", ".", "../.."}).Draw(rt, "dtarget")
 			}
-			switch rapid.IntRange(0, 7).Draw(rt, "decor") {
+			switch rapid.IntRange(0, 8).Draw(rt, "decor") {
 			case 0:
 				tgt = "./" + tgt
 			case 1:
@@ -204,6 +205,16 @@ func c02GenCase(rt *rapid.T) c02Case {
 			case 3:
 				if !strings.HasPrefix(tgt, "{R}") {
 					tgt = "x/../" + tgt // x need not exist for the lexical reading, but must for the kernel
+				}
+			case 4:
+				// a long link text (a link text may be up to PATH_MAX-1 bytes, far more than NAME_MAX): "./" padding keeps
+				// the meaning and moves the real target beyond byte 255 / 256 / 1024 / 4000
+				k := rapid.SampledFrom([]int{120, 125, 126, 127, 128, 129, 130, 200, 511, 512, 1000, 1900}).Draw(rt, "longtext")
+				pad := strings.Repeat("./", k)
+				if strings.HasPrefix(tgt, "{R}/") {
+					tgt = "{R}/" + pad + tgt[4:]
+				} else {
+					tgt = pad + tgt
 				}
 			}
 			n.Target = tgt
@@ -1020,6 +1031,12 @@ func c02Run(c c02Case, root string, rec *vh.Recorder) error {
 			}
 		}
 	}
+	for _, n := range c.Nodes {
+		if n.Kind == "link" && len(n.Target) > 255 {
+			classes = append(classes, "forest-has-link-text>255-bytes")
+			break
+		}
+	}
 	rec.Case(c, anyNT, dedup(classes)...)
 	rec.Evals(len(plans))
 	if anyNT && rec.WantSample() {
@@ -1075,3 +1092,63 @@ func TestC02Paths(t *testing.T) {
 }
 
 var c02Debug = os.Getenv("VERIF_DEBUG") != ""
+
+// TestC02Concurrent: the policy of one sandbox is asked about *its* program's paths also while other sandboxes of the
+// same process are trapping path syscalls at the same time (2..4 generated cases, each on a forest of its own, run
+// together; every one is judged exactly as when run alone).
+func TestC02Concurrent(t *testing.T) {
+	rec := vh.NewRecorder(t, "C02", "exploration",
+		"concurrent part: 2..4 generated cases (as in the paths part), each on its own forest, traced at the same time by different threads of one process; each is judged against the kernel's resolution exactly as when run alone; non-trivial as in the paths part")
+	rec.Assume("which traps of different sandboxes overlap is the OS scheduler's; cases have 4..16 traced calls each and are repeated")
+	base, err := vh.ScratchDir("c02c")
+	if err != nil {
+		t.Fatalf("INFRA: %v", err)
+	}
+	defer os.RemoveAll(base)
+	base, _ = filepath.EvalSymlinks(base)
+	_ = syscall.Chmod(base, 0o755)
+	const slots = 4
+	var roots [slots]string
+	for i := range roots {
+		roots[i] = filepath.Join(base, fmt.Sprintf("r%d", i))
+		if err := os.Mkdir(roots[i], 0o755); err != nil {
+			t.Fatalf("INFRA: %v", err)
+		}
+	}
+	type conc struct{ Cases []c02Case }
+	vh.Check(t, rec, func(rt *rapid.T) conc {
+		var c conc
+		for n := rapid.IntRange(2, slots).Draw(rt, "ncases"); n > 0; n-- {
+			c.Cases = append(c.Cases, c02GenCase(rt))
+		}
+		return c
+	}, func(c conc) error {
+		errs := make([]error, len(c.Cases))
+		var wg sync.WaitGroup
+		start := make(chan struct{})
+		for i := range c.Cases {
+			wg.Add(1)
+			go func(i int) {
+				defer wg.Done()
+				<-start
+				// several rounds, so that the runs overlap for longer than one launch takes
+				for r := 0; r < 3 && errs[i] == nil; r++ {
+					errs[i] = c02Run(c.Cases[i], roots[i%slots], rec)
+				}
+			}(i)
+		}
+		close(start)
+		wg.Wait()
+		rec.Class(fmt.Sprintf("concurrent-sandboxes=%d", len(c.Cases)), 1)
+		for i, e := range errs {
+			if e != nil {
+				if v, ok := e.(*vh.Violation); ok {
+					v.Key += "/concurrent"
+					v.Detail = fmt.Sprintf("sandbox %d of %d traced concurrently: %s", i, len(c.Cases), v.Detail)
+				}
+				return e
+			}
+		}
+		return nil
+	})
+}
